@@ -288,8 +288,27 @@ def r3(ctx, inner=None, il=None, ipb=None):
     ctx.check("R12.3", "tolerance-rule", ok_tol and n_single == 2 and n_general == 1, "tolerance-accuracy:" + short("; ".join(w for w in why if not w.startswith("softmax")), 100), where,
               "single output: [|p-t| < tol]; otherwise mean over components of [|t-p| < tol] (strict)", "; ".join(why))
     fa = ctx.fn("tensor::Tensor::argmax")
-    t = pretty(fa["body"])
-    ok = "data.iter().enumerate().max_by(|(_, a), (_, b)| a.partial_cmp(b).unwrap()).unwrap().0" in t
+    # on the E6 summary: one result path (data is Single = d): enumerate(d).max_by(|l, r| l.1.partial_cmp(r.1).unwrap()).unwrap().0
+    Ea = e5.Exec(c, fa)
+    la = [p_ for p_ in Ea.run_fn() if p_.exit is None or p_.exit[0] == "return"]
+    ok = False
+    t = "?"
+    DATA_ = ("field", ("p", "self"), "data")
+    if len(la) == 1 and la[0].pc == ((("is", DATA_, "tensor::Data::Single"), True),):
+        va = la[0].val if la[0].exit is None else la[0].exit[1]
+        t = e5.show(va, 3)
+        d_ = ("payload", DATA_, "tensor::Data::Single", 0)
+        if isinstance(va, tuple) and va[0] == "proj" and va[2] == 0:
+            u_ = e5.is_call(va[1], "unwrap", 1) or e5.is_call(va[1], "expect")
+            mb = e5.is_call(u_[0], "max_by", 2) if u_ else None
+            if mb and mb[0] == ("call", "std::iter::Iterator::enumerate", (d_,)) and isinstance(mb[1], tuple) and mb[1][0] == "closure":
+                CS = Ea.loop_summaries.get("cl%s" % mb[1][1])
+                if CS and len(CS["paths"]) == 1 and not CS["paths"][0].pc and CS["paths"][0].exit is None and not CS["paths"][0].eff:
+                    el_ = ("elem", CS["recv"], "cl%s" % mb[1][1])
+                    cv = CS["paths"][0].val
+                    uc = e5.is_call(cv, "unwrap", 1) or e5.is_call(cv, "expect")
+                    pc_ = e5.is_call(uc[0], "partial_cmp", 2) if uc else None
+                    ok = pc_ is not None and pc_ == (("proj", ("proj", el_, 0), 1), ("proj", ("proj", el_, 1), 1)) and not la[0].eff[1:] 
     ctx.check("R12.3", "argmax-definition", ok, "argmax:" + short(t, 100), c.loc(fa), "index of a maximum under partial_cmp")
 
 
